@@ -479,3 +479,160 @@ Proof.
   - vm_compute. reflexivity.
   - intros n [<-|[<-|[]]]; cbn; intros; lia.
 Qed.
+
+(** The melody notes infer_melody_for_sequence adds, for any event path. *)
+Theorem infer_melody_write_wf evs notes total ns :
+  (forall n, In n notes -> 0 <= f_start n /\ 0 <= f_end n <= total) ->
+  infer_melody_write evs notes total = Some ns ->
+  notes_ok 0 total ns /\
+  forall n, In n ns ->
+    In (Onset (m_pitch n), m_start n) (combine evs (0 :: note_event_times (frame_notes notes total) total)).
+Proof.
+  intros Hr Hw. unfold infer_melody_write in Hw.
+  destruct (frame_notes notes total) as [|x fn] eqn:Efn.
+  - inversion Hw; subst. split; [exact I | intros n []].
+  - assert (Hx : In x (frame_notes notes total)) by (rewrite Efn; left; reflexivity).
+    unfold frame_notes in Hx. apply filter_In in Hx. destruct Hx as [Hx1 Hx2].
+    assert (Htot : 0 < total).
+    { specialize (Hr x Hx1). unfold melodic in Hx2. apply andb_prop in Hx2. lia. }
+    unfold note_event_times in *.
+    apply melody_written_wf_sequence; [|exact Htot|exact Hw].
+    intros t Ht. rewrite <- Efn in Ht.
+    apply in_app_or in Ht. destruct Ht as [Ht|Ht]; apply in_map_iff in Ht; destruct Ht as (m & <- & Hm);
+      unfold frame_notes in Hm; apply filter_In in Hm; destruct Hm as [Hm1 Hm2]; specialize (Hr m Hm1); [|lia].
+    unfold melodic in Hm2. apply andb_prop in Hm2. lia.
+Qed.
+
+(** ** Reading the melody back: at every frame start the written notes sound
+    exactly the pitch of that frame's melody event (nothing on a rest) *)
+Definition sounding (ns : list mnote) (t : Z) : list Z :=
+  map m_pitch (filter (fun n => (m_start n <=? t) && (t <? m_end n)) ns).
+Definition ev_pitches (e : mev) : list Z :=
+  match e with Rest => [] | Onset q => [q] | Sustain q => [q] end.
+
+Lemma notes_ok_lower ns : forall lo total, notes_ok lo total ns -> forall n, In n ns -> lo <= m_start n.
+Proof.
+  induction ns as [|x r IH]; intros lo total H n Hin; [destruct Hin|].
+  destruct H as (H1 & H2 & H3 & H4). destruct Hin as [<-|Hin]; [exact H1|].
+  specialize (IH _ _ H4 n Hin). lia.
+Qed.
+
+Lemma sounding_before ns u : (forall n, In n ns -> u < m_start n) -> sounding ns u = [].
+Proof.
+  induction ns as [|x r IH]; intros H; [reflexivity|].
+  unfold sounding. cbn [filter]. assert (Hx := H x (or_introl eq_refl)).
+  destruct (m_start x <=? u) eqn:E; [lia|]. cbn [andb]. apply IH. intros n Hn. apply H. right. exact Hn.
+Qed.
+
+Lemma sounding_cons x r u :
+  sounding (x :: r) u = (if (m_start x <=? u) && (u <? m_end x) then [m_pitch x] else []) ++ sounding r u.
+Proof. unfold sounding. cbn [filter]. destruct ((m_start x <=? u) && (u <? m_end x)); reflexivity. Qed.
+
+(* while the sounding note (if any) is still open, it alone sounds *)
+Lemma sounding_cur l : forall cur lo total ns,
+  times_increasing lo l -> cur_ok lo cur -> (forall e t, In (e, t) l -> t < total) -> lo < total ->
+  write_melody cur l total = Some ns ->
+  forall u, u <= lo -> match cur with Some (_, s) => s <= u | None => True end ->
+  sounding ns u = match cur with Some (p, _) => [p] | None => [] end.
+Proof.
+  induction l as [|[e t] r IH]; intros cur lo total ns Hinc Hcur Hlt Hlo Hw u Hu Hs; cbn [write_melody] in Hw.
+  - destruct cur as [[p s]|]; inversion Hw; subst; [|reflexivity].
+    rewrite sounding_cons. cbn [m_start m_end m_pitch].
+    destruct (s <=? u) eqn:E1; [|lia]. destruct (u <? total) eqn:E2; [|lia]. reflexivity.
+  - destruct Hinc as [Ht Hr].
+    assert (Htt : t < total) by (apply (Hlt e t); left; reflexivity).
+    assert (Hlt' : forall e0 t0, In (e0, t0) r -> t0 < total) by (intros; eapply Hlt; right; eassumption).
+    destruct e as [|q|q].
+    + destruct cur as [[p s]|].
+      * destruct (write_melody None r total) as [ns'|] eqn:E; cbn in Hw; inversion Hw; subst; clear Hw.
+        cbn in Hcur. rewrite sounding_cons. cbn [m_start m_end m_pitch].
+        destruct (s <=? u) eqn:E1; [|lia]. destruct (u <? t) eqn:E2; [|lia]. cbn [andb app].
+        rewrite (IH None t total ns' Hr I Hlt' Htt E u ltac:(lia) I). reflexivity.
+      * exact (IH None t total ns Hr I Hlt' Htt Hw u ltac:(lia) I).
+    + assert (Hnew : forall ns', write_melody (Some (q, t)) r total = Some ns' -> sounding ns' u = []).
+      { intros ns' E. apply sounding_before. intros n Hn.
+        pose proof (write_melody_ok r (Some (q, t)) t total ns' Hr ltac:(cbn; lia) Hlt' Htt E) as Hok.
+        cbn [cur_start] in Hok. pose proof (notes_ok_lower _ _ _ Hok n Hn). lia. }
+      destruct cur as [[p s]|].
+      * destruct (write_melody (Some (q, t)) r total) as [ns'|] eqn:E; cbn in Hw; inversion Hw; subst; clear Hw.
+        cbn in Hcur. rewrite sounding_cons. cbn [m_start m_end m_pitch].
+        destruct (s <=? u) eqn:E1; [|lia]. destruct (u <? t) eqn:E2; [|lia]. cbn [andb app].
+        rewrite (Hnew ns' eq_refl). reflexivity.
+      * apply Hnew. exact Hw.
+    + destruct cur as [[p s]|]; [|discriminate].
+      destruct (p =? q); [|discriminate].
+      exact (IH (Some (p, s)) t total ns Hr ltac:(cbn in *; lia) Hlt' Htt Hw u ltac:(lia) Hs).
+Qed.
+
+Lemma write_melody_readback l : forall cur lo total ns,
+  times_increasing lo l -> cur_ok lo cur -> (forall e t, In (e, t) l -> t < total) -> lo < total ->
+  write_melody cur l total = Some ns ->
+  forall e t, In (e, t) l -> sounding ns t = ev_pitches e.
+Proof.
+  induction l as [|[e t] r IH]; intros cur lo total ns Hinc Hcur Hlt Hlo Hw e' t' Hin; [destruct Hin|].
+  cbn [write_melody] in Hw. destruct Hinc as [Ht Hr].
+  assert (Htt : t < total) by (apply (Hlt e t); left; reflexivity).
+  assert (Hlt' : forall e0 t0, In (e0, t0) r -> t0 < total) by (intros; eapply Hlt; right; eassumption).
+  assert (Hlater : In (e', t') r -> t < t').
+  { clear - Hr. revert t Hr. induction r as [|[e0 t0] r IHr]; intros t Hr Hin; [destruct Hin|].
+    destruct Hr as [H0 Hr]. destruct Hin as [Heq|Hin]; [inversion Heq; subst; exact H0|].
+    specialize (IHr t0 Hr Hin). lia. }
+  destruct e as [|q|q].
+  - destruct cur as [[p s]|].
+    + destruct (write_melody None r total) as [ns'|] eqn:E; cbn in Hw; inversion Hw; subst; clear Hw.
+      cbn in Hcur. rewrite sounding_cons. cbn [m_start m_end m_pitch].
+      destruct Hin as [Heq|Hin].
+      * inversion Heq; subst e' t'. rewrite Z.ltb_irrefl, andb_false_r. cbn [app ev_pitches].
+        exact (sounding_cur r None t total ns' Hr I Hlt' Htt E t ltac:(lia) I).
+      * specialize (Hlater Hin). destruct (t' <? t) eqn:E2; [lia|]. rewrite andb_false_r. cbn [app].
+        exact (IH None t total ns' Hr I Hlt' Htt E e' t' Hin).
+    + destruct Hin as [Heq|Hin].
+      * inversion Heq; subst e' t'. cbn [ev_pitches].
+        exact (sounding_cur r None t total ns Hr I Hlt' Htt Hw t ltac:(lia) I).
+      * exact (IH None t total ns Hr I Hlt' Htt Hw e' t' Hin).
+  - assert (Hq : forall ns', write_melody (Some (q, t)) r total = Some ns' -> sounding ns' t' = ev_pitches e').
+    { intros ns' E. destruct Hin as [Heq|Hin].
+      - inversion Heq; subst e' t'. cbn [ev_pitches].
+        exact (sounding_cur r (Some (q, t)) t total ns' Hr ltac:(cbn; lia) Hlt' Htt E t ltac:(lia) ltac:(cbn; lia)).
+      - exact (IH (Some (q, t)) t total ns' Hr ltac:(cbn; lia) Hlt' Htt E e' t' Hin). }
+    destruct cur as [[p s]|].
+    + destruct (write_melody (Some (q, t)) r total) as [ns'|] eqn:E; cbn in Hw; inversion Hw; subst; clear Hw.
+      cbn in Hcur. rewrite sounding_cons. cbn [m_start m_end m_pitch].
+      assert (Hge : t <= t') by (destruct Hin as [Heq|Hin]; [inversion Heq; lia | specialize (Hlater Hin); lia]).
+      destruct (t' <? t) eqn:E2; [lia|]. rewrite andb_false_r. cbn [app]. apply Hq. reflexivity.
+    + apply Hq. exact Hw.
+  - destruct cur as [[p s]|]; [|discriminate].
+    destruct (p =? q) eqn:Epq; [|discriminate]. assert (p = q) by lia. subst q.
+    destruct Hin as [Heq|Hin].
+    + inversion Heq; subst e' t'. cbn [ev_pitches]. cbn in Hcur.
+      exact (sounding_cur r (Some (p, s)) t total ns Hr ltac:(cbn; lia) Hlt' Htt Hw t ltac:(lia) ltac:(cbn; lia)).
+    + exact (IH (Some (p, s)) t total ns Hr ltac:(cbn in *; lia) Hlt' Htt Hw e' t' Hin).
+Qed.
+
+Theorem infer_melody_readback evs notes total ns :
+  (forall n, In n notes -> 0 <= f_start n /\ 0 <= f_end n <= total) ->
+  frame_notes notes total <> [] ->
+  infer_melody_write evs notes total = Some ns ->
+  forall e t, In (e, t) (combine evs (0 :: note_event_times (frame_notes notes total) total)) ->
+  sounding ns t = ev_pitches e.
+Proof.
+  intros Hr Hne Hw. unfold infer_melody_write in Hw.
+  destruct (frame_notes notes total) as [|x fn] eqn:Efn; [congruence|].
+  assert (Hx : In x (frame_notes notes total)) by (rewrite Efn; left; reflexivity).
+  unfold frame_notes in Hx. apply filter_In in Hx. destruct Hx as [Hx1 Hx2].
+  assert (Htot : 0 < total).
+  { specialize (Hr x Hx1). unfold melodic in Hx2. apply andb_prop in Hx2. lia. }
+  assert (Hrange : forall t, In t (map f_start (x :: fn) ++ map f_end (x :: fn)) -> 0 <= t <= total).
+  { intros t Ht. rewrite <- Efn in Ht.
+    apply in_app_or in Ht. destruct Ht as [Ht|Ht]; apply in_map_iff in Ht; destruct Ht as (m & <- & Hm);
+      unfold frame_notes in Hm; apply filter_In in Hm; destruct Hm as [Hm1 Hm2]; specialize (Hr m Hm1); [|lia].
+    unfold melodic in Hm2. apply andb_prop in Hm2. lia. }
+  unfold note_event_times in *.
+  destruct (event_times_spec _ _ total Hrange) as [Hi Hu].
+  set (et := event_times (map f_start (x :: fn)) (map f_end (x :: fn)) total) in *.
+  unfold melody_written in Hw.
+  intros e t Hin.
+  apply (write_melody_readback (combine evs (0 :: et)) None (-1) total ns); try assumption; try exact I; try lia.
+  - apply incr_combine_ev. cbn. split; [lia | exact Hi].
+  - intros e0 t0 H0. apply in_combine_r in H0. destruct H0 as [<-|H0]; [exact Htot|]. apply Hu in H0. lia.
+Qed.
